@@ -1,38 +1,20 @@
-"""Static description of every claimed property (read by ./check and tools/gen_manifest.py)."""
+"""Static description of every claimed property (read by ./check and tools/gen_manifest.py).
+One file per claimed property: tools/meta/Cxx.py defining META = {...} (see tools/meta/C17.py)."""
+import glob, os, sys
 
-COMMON_NOTE = ("Trusted: Lean 4.33 kernel; axioms propext, Classical.choice, Quot.sound (plus bv_decide's native "
-               "axioms where the evidence file lists them); the hand transcription of the Rust code into the Lean "
-               "model, which is tied to /repo's working tree on every run by the correspondence check (differential "
-               "execution of real code vs. compiled model, exhaustive where stated, seeded random elsewhere).")
+_HERE = os.path.dirname(os.path.abspath(__file__))
+sys.path.insert(0, os.path.join(_HERE, "meta"))
+from _common import COMMON_NOTE  # noqa: E402,F401
 
-META = {
-    "C17": {
-        "title": "Input ports reflect exactly the controls held, for every event history",
-        "lean_modules": ["ZxVerif.Props.C17"],
-        "modelled_code": [
-            "rustzx-core/src/zx/keys.rs", "rustzx-core/src/zx/joy/sinclair.rs",
-            "rustzx-core/src/zx/joy/kempston.rs", "rustzx-core/src/zx/mouse/kempston.rs",
-            "rustzx-core/src/zx/controller.rs (send_key, send_sinclair_key, send_compound_key, ULA/Kempston/mouse "
-            "branches of read_io)", "rustzx-core/src/emulator/mod.rs (send_* forwarding)"],
-        "assumptions": [
-            "the Lean model ZxVerif/Model/Input.lean is a hand transcription; its agreement with the Rust code is "
-            "checked by differential execution, exhaustively for single controls x 256 selectors, sampled for histories",
-            "EAR input is held low (empty tape) during the correspondence runs; the theorem covers both levels",
-            "the Kempston joystick port is read on an emulator without the mouse (with both enabled no address "
-            "selects the joystick alone)"],
-        "design_ref": "DESIGN.md section 8, C17",
-        "technique": "Lean 4 proof: representation invariant between key-matrix arrays and held-control sets, "
-                     "induction over event histories; tied to the code by differential correspondence",
-        "level_text": "Refinement theorem in Lean 4 (all event histories, all 256 selectors): the model of the key "
-                      "matrices/joystick/mouse state equals the held-set spec; the model is tied to the Rust code on "
-                      "every run by a correspondence check (exhaustive single-control sweep + seeded histories) with "
-                      "the executable spec adjudicating every disagreement.",
-        "level_note": COMMON_NOTE + " bv_decide is used for four 8/16-bit mouse-counter identities.",
-    },
-}
+META = {}
+for _f in sorted(glob.glob(os.path.join(_HERE, "meta", "C*.py"))):
+    _ns = {}
+    exec(compile(open(_f).read(), _f, "exec"), _ns)
+    META[os.path.basename(_f)[:-3]] = _ns["META"]
 
 ALL_IDS = ["C%02d" % i for i in range(1, 21)]
 NOT_YET = {}
 for _i in ALL_IDS:
     if _i not in META:
-        NOT_YET[_i] = "not claimed yet: the model/theorems/correspondence for this property are still being built (see DESIGN.md section 11 for the order)"
+        NOT_YET[_i] = ("not claimed yet: the model/theorems/correspondence for this property are still being built "
+                       "(see DESIGN.md section 11 for the order)")
